@@ -87,3 +87,46 @@ Definition model_jac (c : jcase) : list (list Qc) :=
   map (fun r => map (qevp (j_rho c)) (jac_row Qc qc_scale (sx s) r)) (srows s).
 Definition agree_jac (c : jcase) : bool := list_eqb (list_eqb qc_eqb) (model_jac c) (j_obs c).
 Definition mism_jac (cases : list jcase) : list nat := mism_by agree_jac cases.
+
+(* ---- C01: update expressions of the analytic sub-system -------------------------------------- *)
+From OdeVerif Require Import Model.Propagator.
+
+Record pcase01 := {
+  q_n : nat; q_shapes : list (shape Qc); q_rho : list (atom * Qc);
+  q_keep : list bool;                        (* the analytic subset *)
+  q_h : Qc;
+  q_P : list ((nat * nat) * Qc);             (* observed propagator keys (sub-system indices) with the value given to each symbol *)
+  q_ok : bool;                               (* implementation returned an analytical solver *)
+  q_obs : list Qc                            (* update expressions of the analytic variables at the point *)
+}.
+
+Definition q_sub (c : pcase01) : subsys Qc :=
+  sub_system Qc (q_n c) (from_shapes Qc (Q2Qc 1) (fun _ => []) par_std (q_n c) (q_shapes c)) (fun j => nth j (q_keep c) false).
+
+Definition q_row (c : pcase01) (r : nat) : row Qc := nth r (srows (q_sub c)) (mkRow [] [] []).
+Definition q_A (c : pcase01) (r k : nat) : Qc := qevp (q_rho c) (pnth (rA (q_row c r)) k).
+Definition q_b (c : pcase01) (r : nat) : Qc := qevp (q_rho c) (rb (q_row c r)).
+Definition q_x (c : pcase01) (k : nat) : Qc := lookup_atom (q_rho c) (AVar (nth k (sx (q_sub c)) 0%nat)).
+Definition q_Pval (c : pcase01) (r k : nat) : Qc :=
+  match find (fun e => Nat.eqb (fst (fst e)) r && Nat.eqb (snd (fst e)) k) (q_P c) with Some e => snd e | None => Q2Qc 0 end.
+Definition q_Pnz (c : pcase01) (r k : nat) : bool :=
+  existsb (fun e => Nat.eqb (fst (fst e)) r && Nat.eqb (snd (fst e)) k) (q_P c).
+Definition q_bnz (c : pcase01) (r : nat) : bool := negb (isz (rb (q_row c r))).
+Definition q_annz (c : pcase01) (r : nat) : bool := negb (isz (pnth (rA (q_row c r)) r)).
+Definition q_cz (c : pcase01) (r : nat) : bool := isz (rc (q_row c r)).
+Definition q_adj (c : pcase01) (i j : nat) : bool := negb (isz (pnth (rA (q_row c i)) j)).
+Definition q_m (c : pcase01) : nat := length (sx (q_sub c)).
+Definition q_scc (c : pcase01) (r : nat) : bool := 1 <? scc_size (q_adj c) (q_m c) r.
+Definition q_ps (c : pcase01) (r : nat) : Qc := (- q_b c r / q_A c r r)%Qc.
+(* predicted pattern: P[r,k] != 0 iff k is reachable from r along non-zero entries of A *)
+Definition q_Ppred (c : pcase01) (r k : nat) : bool := reaches (q_adj c) (q_m c) r k.
+
+Definition model_updates (c : pcase01) : list Qc :=
+  map (fun r => update Qc (Q2Qc 0) Qcplus Qcmult Qcopp (q_m c) (q_b c) (q_x c) (q_Pval c) (q_h c) (q_ps c) (q_Pnz c) (q_bnz c) (q_annz c) r)
+      (seq 0 (q_m c)).
+
+Definition agree_c01 (c : pcase01) : bool :=
+  if q_ok c then
+    accepted (q_m c) (q_Pnz c) (q_bnz c) (q_cz c) (q_scc c) && list_eqb qc_eqb (model_updates c) (q_obs c)
+  else negb (accepted (q_m c) (q_Ppred c) (q_bnz c) (q_cz c) (q_scc c)).
+Definition mism_c01 (cases : list pcase01) : list nat := mism_by agree_c01 cases.
